@@ -13,7 +13,7 @@ import UnicLocale.Lemmas.LiLoop
 import UnicLocale.Model.Ops
 import UnicLocale.Spec.TablesWF
 
-namespace UL
+namespace UL.Tot
 
 theorem Res.isPanic_false_iff {α} (r : Res α) : r.isPanic = false ↔ r ≠ .panic := by
   cases r <;> simp [Res.isPanic]
@@ -324,7 +324,7 @@ theorem lookupBy_mem {α} {a : Array α} {cmp : α → Nat} {x : α} (h : lookup
     · cases h
 
 /-- every table value carries a language (all that `lang_from_parts`' `.unwrap()` needs) -/
-def Tables.valuesHaveLang (T : Tables) : Prop :=
+def _root_.UL.Tables.valuesHaveLang (T : Tables) : Prop :=
   (∀ row ∈ T.langOnly.toList, row.l ≠ 0) ∧ (∀ row ∈ T.langRegion.toList, row.l ≠ 0) ∧
   (∀ row ∈ T.langScript.toList, row.l ≠ 0) ∧ (∀ row ∈ T.scriptRegion.toList, row.l ≠ 0) ∧
   (∀ row ∈ T.scriptOnly.toList, row.l ≠ 0) ∧ (∀ row ∈ T.regionOnly.toList, row.l ≠ 0)
@@ -577,7 +577,7 @@ theorem PExt.removeTag_ne_panic (p : PExt) (t : Bytes) : PExt.removeTag p t ≠ 
   Res.map_ne_panic (parsePrivate_ne_panic t)
 
 /-- the operations that do not consult the tables -/
-def Op.usesTables : Op → Bool
+def _root_.UL.Op.usesTables : Op → Bool
   | .maximize => true
   | .minimize => true
   | _ => false
@@ -622,4 +622,20 @@ theorem step_ne_panic_of (T : Tables) (x : Locale) (o : Op)
     exact outOfBool_ne_panic _ _ (LangId.applyTriple_ne_panic _
       (Res.ne_panic_of_isOk (Likely.minimize_isOk (hT rfl) _ _ _)))
 
-end UL
+/-! ### hand-made tables for the non-vacuity examples -/
+
+/-- a small well-formed table set: `en`/`und` → en-Latn-US in every table -/
+def tinyTables : Tables where
+  langOnly := #[⟨28261, 28262, 1853120845, 21334⟩, ⟨6581877, 28262, 1853120845, 21334⟩]
+  langRegion := #[⟨28261, 21333, 28262, 1853120845, 21334⟩]
+  langScript := #[⟨28261, 1853120844, 28262, 1853120845, 21334⟩]
+  scriptRegion := #[⟨1853120844, 21333, 28262, 1853120845, 21334⟩]
+  scriptOnly := #[⟨1853120844, 28262, 1853120845, 21334⟩]
+  regionOnly := #[⟨21333, 28262, 1853120845, 21334⟩]
+
+/-- an ill-formed one: the value of `en` has no language (encoded `0`) -/
+def badTables : Tables := { tinyTables with langOnly := #[⟨28261, 0, 1853120845, 21334⟩] }
+
+def tinyLayout : Layout := ⟨[1853120844], [1650553409], [1735290701], [29281]⟩
+
+end UL.Tot
